@@ -235,6 +235,16 @@ def service_programs():
     progs.append(Program("svc_empty", "service with no endpoints", space.ir([], [space.service("Nothing", [], PKG)]), cls="service:empty"))
     progs.append(Program("svc_only_optbin", "service whose only streaming endpoint returns optional<binary>", space.ir([], [space.service("OptBin", [space.endpoint("get", "GET", "/g", [], returns=OBIN), space.endpoint("other", "GET", "/o", [], returns=S)], PKG)]), cls="service:only-optional-binary-return"))
     progs.append(Program("svc_only_binreq", "service whose only streaming endpoint takes a binary body", space.ir([], [space.service("BinReq", [space.endpoint("put", "POST", "/p", [space.arg("body", BIN, "body")]), space.endpoint("other", "GET", "/o", [], returns=S)], PKG)]), cls="service:only-binary-request"))
+    # path templates at the edges of the grammar: the root alone, single segments, a parameter as
+    # the only segment, many literal segments, literals with every unreserved punctuation
+    progs.append(Program("svc_root_path", "service with endpoints at /, /a, /{p}, /a/b/c/d/e/f/g/h and /a-b.c_d~e", space.ir([], [space.service("Roots", [
+        space.endpoint("root", "GET", "/", [], returns=S),
+        space.endpoint("rootPost", "POST", "/", [space.arg("body", S, "body")]),
+        space.endpoint("one", "GET", "/a", []),
+        space.endpoint("onlyParam", "GET", "/{p}", [space.arg("p", S, "path")]),
+        space.endpoint("deep", "GET", "/a/b/c/d/e/f/g/h", []),
+        space.endpoint("punct", "GET", "/a-b.c_d~e/{x}/f.g", [space.arg("x", I, "path")]),
+    ], PKG)]), cls="service:root-path"))
     progs.append(Program("svc_alias_optbin", "service returning an alias of optional<binary>", space.ir([space.alias("MaybeBlob", OBIN, PKG)], [space.service("AliasOptBin", [space.endpoint("get", "GET", "/g", [], returns=R("MaybeBlob"))], PKG)]), cls="service:alias-of-optional-binary-return"))
     return progs
 
@@ -454,6 +464,15 @@ def full_crate_programs():
                space.endpoint("plain", "GET", "/p", [], returns=S)] if has_s else []
         name = "".join(w for w, h in (("types", has_t), ("errors", has_e), ("services", has_s)) if h)
         out.append((name, space.ir(types if has_t else [], [space.service("Svc", eps, PKG)] if has_s else [], errors)))
+    # identifiers that are reserved in some edition (the emitted manifest picks the edition: what
+    # is an identifier there is decided by it, not by the harness crate): members, arguments,
+    # endpoints, package components
+    kw = ["gen", "async", "await", "dyn", "try", "union", "auto", "raw", "macro_rules", "abstract", "become", "box", "do", "final", "macro", "override", "priv", "typeof", "unsized", "virtual", "yield"]
+    kw_types = [space.obj("Words", [space.field(k, S) for k in kw], PKG), space.union("WordUnion", [space.field(k, I) for k in kw], PKG),
+                space.obj("InPkg", [space.field("w", R("Words"))], "com.verif.gen"), space.enum("WordEnum", [k.upper() for k in kw], "com.verif.r#try" if False else "com.verif.dyn")]
+    kw_eps = [space.endpoint(k, "GET", "/k/%d" % i, [space.arg(k, S, "query", "q")], returns=I) for i, k in enumerate(kw)]
+    kw_err = space.error("WordsErr", "Verif", "CONFLICT", [space.field(k, S) for k in kw[:5]], [space.field(k, S) for k in kw[5:9]])
+    out.append(("keywords", space.ir(kw_types, [space.service("WordSvc", kw_eps, PKG)], [kw_err])))
     # services only, without any conjure-object type in a signature
     out.append(("servicesplain", space.ir([], [space.service("Plain", [space.endpoint("plain", "GET", "/p/{a}", [space.arg("a", S, "path")], returns=I)], PKG)], [])))
     return out
